@@ -254,6 +254,9 @@ def logic_case(triple, present):
   positive = z3.And([g > 0 for g in given if g is not None] + [z3.BoolVal(True)])
   # a single row (n == 1) is degenerate (no step): outside the property's quantifier (2..20000 rows); either outcome is accepted
   degenerate = (n == 1) if present[0] else z3.BoolVal(False)
+  if present == (False, True, True):
+    # a cutoff shorter than one step would give a single row as well (k = 0; the statement speaks of whole multiples k >= 1)
+    degenerate = cu < st
   combo_ok = present in ((True, True, False), (True, False, True), (False, True, True), (True, False, False), (False, False, True), (False, False, False))
 
   def build(path, wrong=False):
@@ -341,7 +344,7 @@ def replay_logic(triple, present, w):
   text = "[Tabulation]\ntarget : LAMMPS\n" + "".join("%s : %r\n" % kv for kv in vals.items())
   combo_ok = present in ((True, True, False), (True, False, True), (False, True, True), (True, False, False), (False, False, True), (False, False, False))
   valid = combo_ok and all(v > 0 for v in vals.values())
-  if present[0] and vals[n_] == 1:
+  if (present[0] and vals[n_] == 1) or (present == (False, True, True) and vals[c_] < vals[d_]):
     return (False, "single-row grid: outside the property", dict(kind="logic", model=text))
   try:
     tab = ConfigParser(io.StringIO(text)).tabulation
